@@ -1,6 +1,8 @@
+import Bp7.Props.C03Tags
 import Bp7.Props.C03
 #print axioms Bp7.C03.decode_spec_partial
 #print axioms Bp7.C03.decode_spec_nocrc
 #print axioms Bp7.C03.decode_spec_of_eq
 #print axioms Bp7.C03.golden_decodes
 #print axioms Bp7.C03.decode_spec
+#print axioms Bp7.C03.accepted_tagged
